@@ -483,7 +483,8 @@ def lookup_cases():
     families: key by id and by name; every value-carrying attribute supplied (4 values), every implied
     attribute either left out or supplied with its implied value; attribute keys all by id or all by name"""
     cases = []
-    for is_request, doc_id in ((True, 0x05), (False, 0x07)):
+    # NCDT ids and their CDT twins (a document with a constant-table id always carries a CDT_LEN octet, also when assembled by hand)
+    for is_request, doc_id in ((True, 0x05), (False, 0x07), (True, 0x04), (False, 0x06)):
         table = R.implemented_tokens(doc_id)
         for tid in sorted(table):
             name, kind, flen, attr_ids = table[tid]
